@@ -361,10 +361,10 @@ fn hostile_cases(prgs: &[(T, garble_lang::GarbleProgram)]) -> Result<u64, String
     // the array [a, a+1, .., b-1] of the parameter's element type (also when the range is written without a suffix); a range whose
     // length or values do not fit is refused
     let ranges: [(T, &[(&str, Option<u64>)]); 4] = [
-        (T::Array(Box::new(T::U(8, "u8")), 3), &[("1..4", Some(1)), ("1u8..4u8", Some(1)), ("253..256", Some(253)), ("0..3", Some(0)), ("254..257", None), ("1..3", None), ("1..5", None), ("300..303", None), ("1u16..4u16", None)]),
+        (T::Array(Box::new(T::U(8, "u8")), 3), &[("1..4", Some(1)), ("1u8..4u8", Some(1)), ("253..256", Some(253)), ("0..3", Some(0)), ("254..257", None), ("1..3", None), ("1..5", None), ("300..303", None), ("1u16..4u16", None), ("254u8..257u8", None)]),
         (T::Array(Box::new(T::U(16, "u16")), 4), &[("10..14", Some(10)), ("65532..65536", Some(65532)), ("65533..65537", None), ("10u16..14u16", Some(10)), ("10u8..14u8", None)]),
         (T::Array(Box::new(T::I(8, "i8")), 3), &[("1..4", Some(1)), ("125..128", Some(125)), ("126..129", None)]),
-        (T::Array(Box::new(T::U(32, "usize")), 2), &[("7..9", Some(7)), ("7usize..9usize", Some(7)), ("4294967295..4294967297", None)]),
+        (T::Array(Box::new(T::U(32, "usize")), 2), &[("7..9", Some(7)), ("7usize..9usize", Some(7)), ("4294967295..4294967297", None), ("4294967295usize..4294967297usize", None), ("4294967294usize..4294967296usize", Some(4294967294))]),
     ];
     for (t, cases) in ranges.iter() {
         let p = find(t);
